@@ -8,8 +8,9 @@
 //!   {"kind":"coord","timeout":T,"ops":[[name,args..],..]}
 //!   {"kind":"route", ...}            (see route.rs)
 //! Virtual clock: one unit = 1 s; `advance d` moves every worker's public `last_heartbeat` back by
-//! d units; `heartbeat_timeout` = T units + 0.5; after every op the heartbeats are re-anchored to a
-//! whole number of units, so wall-clock drift never accumulates.
+//! d units; `heartbeat_timeout` = T units + 0.5; before and after every op the wall-clock time that
+//! passed is given back to every worker and the heartbeat ages are rounded to whole units (`settle`),
+//! so an operation takes zero virtual time however long it really took.
 use serde_json::{json, Value as J};
 use std::collections::{HashMap, VecDeque};
 use std::sync::{Mutex, OnceLock};
@@ -103,14 +104,15 @@ struct Sys {
     pend: Vec<Option<Pending>>,
     gids: Vec<String>,
     gidx: HashMap<String, usize>,
+    anchor: Instant,
 }
 
 impl Sys {
     fn gid(&self, g: u64) -> String {
         self.gids.get(g as usize).cloned().unwrap_or_else(|| format!("no-such-group-{}", g))
     }
-    fn reanchor(&mut self) {
-        reanchor(&mut self.c)
+    fn settle(&mut self) {
+        settle(&mut self.c, &mut self.anchor)
     }
     fn word(&self) -> Vec<u64> {
         word_of(&self.c)
@@ -123,13 +125,22 @@ impl Sys {
     }
 }
 
-pub fn reanchor(c: &mut Coordinator) {
+/// Virtual clock bookkeeping.  `anchor` is the instant at which every `last_heartbeat` was last a whole
+/// number of units old.  Wall-clock time that passed since then (the operation's own duration: HTTP
+/// round trips to the stub, scheduling delays on a loaded machine) is given back to every worker, so an
+/// operation takes zero virtual time however long it really took; a heartbeat / registration made
+/// during the operation ends up with age 0.  Then the ages are rounded to whole units again.
+pub fn settle(c: &mut Coordinator, anchor: &mut Instant) {
     let now = Instant::now();
+    let passed = now.saturating_duration_since(*anchor);
     for w in c.workers.values_mut() {
-        let age = now.saturating_duration_since(w.last_heartbeat);
+        let shifted = w.last_heartbeat.checked_add(passed).unwrap_or(now);
+        let lh = if shifted > now { now } else { shifted };
+        let age = now.saturating_duration_since(lh);
         let k = (age.as_millis() as u64 + UNIT_MS / 2) / UNIT_MS;
         w.last_heartbeat = now.checked_sub(Duration::from_millis(k * UNIT_MS)).expect("machine uptime too small for the virtual clock");
     }
+    *anchor = now;
 }
 
 pub fn word_of(c: &Coordinator) -> Vec<u64> {
@@ -249,12 +260,13 @@ fn run_coord(req: &J) -> J {
     let timeout = req["timeout"].as_u64().unwrap();
     let mut c = Coordinator::new();
     c.heartbeat_timeout = Duration::from_millis(timeout * UNIT_MS + UNIT_MS / 2);
-    let mut s = Sys { c, pend: Vec::new(), gids: Vec::new(), gidx: HashMap::new() };
+    let mut s = Sys { c, pend: Vec::new(), gids: Vec::new(), gidx: HashMap::new(), anchor: Instant::now() };
     let mut steps = Vec::new();
     for op in req["ops"].as_array().unwrap() {
         let o = op.as_array().unwrap();
         let name = o[0].as_str().unwrap();
         let n = |k: usize| o[k].as_u64().unwrap();
+        s.settle();
         let word = s.word();
         let pord = s.pord();
         let mut hb_n: Option<usize> = None;
@@ -467,7 +479,7 @@ fn run_coord(req: &J) -> J {
             }
             _ => panic!("bad op {}", name),
         };
-        s.reanchor();
+        s.settle();
         steps.push(json!({"word": word, "pord": pord, "res": res, "hb_n": hb_n, "state": s.state()}));
     }
     json!({ "steps": steps })
